@@ -46,8 +46,54 @@ impl Validator {
         }
     }
 
+    /// Removes the type assignments that refer to themselves through nothing but a chain of
+    /// type references (`A ::= B`, `B ::= A`). Such a type is never defined, and resolving
+    /// a reference to it would not come to an end.
+    fn remove_circular_type_references(&mut self) -> Vec<CompilerError> {
+        let referenced = |name: &String| match self.tlds.get(name) {
+            Some(ToplevelDefinition::Type(ToplevelTypeDefinition {
+                ty: ASN1Type::ElsewhereDeclaredType(e),
+                ..
+            })) => Some(&e.identifier),
+            _ => None,
+        };
+        let circular = self
+            .tlds
+            .keys()
+            .filter(|start| {
+                let mut visited = vec![*start];
+                let mut current = *start;
+                while let Some(next) = referenced(current) {
+                    if next == *start {
+                        return true;
+                    } else if visited.contains(&next) {
+                        return false;
+                    }
+                    visited.push(next);
+                    current = next;
+                }
+                false
+            })
+            .cloned()
+            .collect::<Vec<_>>();
+        circular
+            .into_iter()
+            .map(|name| {
+                self.tlds.remove(&name);
+                LinkerError {
+                    details:
+                        "Circular type reference: the type is only defined in terms of itself!"
+                            .into(),
+                    pdu: Some(name),
+                    kind: LinkerErrorType::MissingDependency,
+                }
+                .into()
+            })
+            .collect()
+    }
+
     fn link(mut self) -> Result<(Self, Vec<CompilerError>), LinkerError> {
-        let mut warnings: Vec<CompilerError> = vec![];
+        let mut warnings: Vec<CompilerError> = self.remove_circular_type_references();
         // Linking of ASN1 values depends on linked ASN1 types, so we order the key collection accordingly (note that we pop keys)
         let mut keys = self
             .tlds
